@@ -25,3 +25,82 @@ Theorem C19_getter_no_url :
     getter_get parse o href = GReq (Some c) -> g_pass_all o = true.
 Proof. exact getter_get_no_url. Qed.
 Print Assumptions C19_getter_no_url.
+
+(* ------------------------------------------------------------------ the call paths
+   [so parse a b]: a and b parse to URLs of equal scheme and host(:port).
+   A credential may reach a URL if it is a repository entry's own pair and that entry has
+   pass-credentials on or its URL is same-origin with the request (repo_cred_ok), or it is the
+   caller's / command-line pair and the caller's pass-credentials is on or the URL is same-
+   origin with the repository the pair was configured for (caller_cred_ok; the ghost tag).
+   Hypotheses (all about library code, each checked by the harness on every case):
+   URL.String() re-parses to the same scheme and host; so does String()+".prov" for a URL
+   with a path; urlutil.Equal implies same scheme and host; FindChartInRepoURL and
+   normalizeURL return absolute URLs with host and path. *)
+Theorem C19_paths_scope :
+  forall (parse : string -> option url) (url_equal : string -> string -> bool)
+         (lookup : entry -> string -> string -> option string) (index_url : string -> option string)
+         (find_in : string -> string -> string -> option string)
+         (dep_url : entry -> string -> string -> string -> option string),
+    (forall s u, parse s = Some u -> so parse s (u_str u)) ->
+    (forall s u, parse s = Some u -> nonempty (u_path u) = true -> so parse s (u_str u ++ ".prov")) ->
+    (forall r n v cu u, find_in r n v = Some cu -> parse cu = Some u -> abs3 u = true) ->
+    (forall cr d n v cu u, dep_url cr d n v = Some cu -> parse cu = Some u -> abs3 u = true) ->
+    (forall a b ua, url_equal a b = true -> parse a = Some ua -> so parse a b) ->
+    (* ChartRepository.DownloadIndexFile *)
+    (forall e href c, In (href, GReq (Some c)) (download_index parse index_url e) ->
+       c = Cred (e_user e) (e_pass e) (e_url e) /\ has_creds e = true /\ (e_pass_all e = true \/ so parse (e_url e) href))
+    (* ChartDownloader.DownloadTo / ResolveChartVersion, all three branches *)
+    /\ (forall copts ref ver repos wp ok href c,
+          (has_c (apply_opts gopts0 copts) = true -> g_pass_all (apply_opts gopts0 copts) = false ->
+           forall u0, parse ref = Some u0 ->
+             if abs3 u0 then so parse (g_src (apply_opts gopts0 copts)) ref
+             else forall rn cn rc, split_slash (u_path u0) = Some (rn, cn) -> pick_by_name rn repos = Some rc ->
+                                   g_src (apply_opts gopts0 copts) = e_url rc) ->
+          In (href, GReq (Some c)) (download_to parse url_equal lookup copts ref ver repos wp ok) ->
+          caller_cred_ok parse (apply_opts gopts0 copts) c href \/ repo_cred_ok parse repos c href)
+    (* ChartPathOptions.LocateChart, with and without --repo *)
+    /\ (forall c name repos ok href cr,
+          In (href, GReq (Some cr)) (locate_chart parse url_equal lookup index_url find_in c name repos ok) ->
+          caller_cred_ok parse (cli_opts parse c name repos) cr href \/ repo_cred_ok parse repos cr href)
+    (* Pull.Run (after repair 6d7787e) *)
+    /\ (forall c name repos wp ok href cr,
+          In (href, GReq (Some cr)) (pull parse url_equal lookup index_url find_in c name repos wp ok) ->
+          caller_cred_ok parse (cli_opts parse c name repos) cr href \/ repo_cred_ok parse repos cr href)
+    (* Manager.findChartURL -> DownloadTo (after repair 0ca3ebf) *)
+    /\ (forall dep_repo name ver repos wp ok href cr,
+          In (href, GReq (Some cr)) (manager_dep parse url_equal lookup index_url find_in dep_url dep_repo name ver repos wp ok) ->
+          repo_cred_ok parse repos cr href).
+Proof. exact paths_scope. Qed.
+Print Assumptions C19_paths_scope.
+
+(* the two repaired call paths did violate the statement: witnesses on the unrepaired models *)
+Theorem C19_pull_unrepaired_refuted :
+  In ("https://cdn.other.test/a-1.0.0.tgz", GReq (Some (Cred "user-cli" "pw-cli" "https://private.corp.test/charts")))
+     (pull_unrepaired ex_parse String.eqb (fun _ _ _ => None) ex_index_url (fun _ _ _ => Some "https://cdn.other.test/a-1.0.0.tgz")
+        ex_cpo "a" [] false true).
+Proof. exact pull_unrepaired_refuted. Qed.
+Print Assumptions C19_pull_unrepaired_refuted.
+
+Theorem C19_manager_unrepaired_refuted :
+  In ("https://public.example/charts/a-1.0.0.tgz", GReq (Some (Cred "user-private" "pw-private" "https://private.corp.test/charts")))
+     (manager_dep_unrepaired ex_parse String.eqb (fun _ _ _ => None) ex_index_url (fun _ _ _ => None)
+        (fun _ _ _ _ => Some "https://public.example/charts/a-1.0.0.tgz")
+        "https://private.corp.test/charts" "a" "1.0.0" [ex_public; ex_private] false true).
+Proof. exact manager_unrepaired_refuted. Qed.
+Print Assumptions C19_manager_unrepaired_refuted.
+
+(* non-vacuity: with the example parser (which meets the URL hypotheses) a named reference
+   to the private repository does carry its credentials to its own host and to no other *)
+Example C19_paths_example :
+  download_to ex_parse String.eqb (fun _ _ _ => Some "https://private.corp.test/charts/a-1.0.0.tgz") [] "private/a" "" [ex_public; ex_private] false true
+  = [("https://private.corp.test/charts/a-1.0.0.tgz", GReq (Some (Cred "user-private" "pw-private" "https://private.corp.test/charts")))]
+  /\ download_to ex_parse String.eqb (fun _ _ _ => Some "https://cdn.other.test/a-1.0.0.tgz") [] "private/a" "" [ex_public; ex_private] false true
+  = [("https://cdn.other.test/a-1.0.0.tgz", GReq None)].
+Proof. exact paths_example. Qed.
+Print Assumptions C19_paths_example.
+
+Example C19_hypotheses_example :
+  (forall s u, ex_parse s = Some u -> so ex_parse s (u_str u)) /\
+  (forall a b ua, String.eqb a b = true -> ex_parse a = Some ua -> so ex_parse a b).
+Proof. exact ex_hypotheses. Qed.
+Print Assumptions C19_hypotheses_example.
